@@ -22,3 +22,62 @@ package stack
 //@   loop 0: invariant n == decval(s, rangeindex+1) && 0 <= n && n < pow10(rangeindex+1)
 //@   loop 0: invariant forall k :: 0 <= k && k <= rangeindex ==> isDigit(s[k])
 //@   loop 0: decreases len(s) - rangeindex
+
+// ---- reader.go ----------------------------------------------------------
+// Ghost stream model (assumed contract of io.Reader, /verif/lib/io.contracts):
+// S(rd, k) is byte k of the stream behind rd, N(rd) its length, fetched(rd)
+// the number of bytes handed out by Read so far.
+
+//@ pred RI(r *reader) = r != nil && r.err != errBufferFull && 0 <= r.r && r.r <= r.w && r.w <= len(r.buf) && r.w - r.r <= fetched(r.rd) && fetched(r.rd) <= N(r.rd) && forall k :: r.r <= k && k < r.w ==> r.buf[k] == S(r.rd, fetched(r.rd) - (r.w - k))
+//@ spec pos(r *reader) int = fetched(r.rd) - (r.w - r.r)
+
+//@ func (*reader).fill
+//@   option overflow=on
+//@   requires RI(r) && r.rd != nil && r.err == nil
+//@   requires r.w - r.r < len(r.buf)
+//@   requires [noNewlineBuffered C11] forall k :: r.r <= k && k < r.w ==> r.buf[k] != 10
+//@   modifies reader.r, reader.w, reader.err at r; elems(r.buf[:]); ghost:fetched at r.rd; ghost:dataReads at r.rd
+//@   ensures RI(r) && r.r == 0 && pos(r) == old(pos(r)) && r.rd == old(r.rd)
+//@   ensures r.w >= old(r.w - r.r)
+//@   ensures forall k :: 0 <= k && k < old(r.w - r.r) ==> r.buf[k] == old(r.buf[r.r + k])
+//@   ensures [oneDataRead C11] dataReads(r.rd) <= old(dataReads(r.rd)) + 1
+//@   ensures [fillProgress C03] r.err == nil ==> r.w > old(r.w - r.r)
+//@   loop 0: invariant RI(r) && r.r == 0 && r.w == old(r.w - r.r) && r.err == nil && r.rd == old(r.rd) && r.rd != nil
+//@   loop 0: invariant 0 <= i && i <= 100 && fetched(r.rd) == old(fetched(r.rd)) && dataReads(r.rd) == old(dataReads(r.rd))
+//@   loop 0: invariant forall k :: 0 <= k && k < r.w ==> r.buf[k] == old(r.buf[r.r + k])
+//@   loop 0: decreases i
+
+//@ func (*reader).buffered
+//@   requires RI(r)
+//@   modifies nothing
+//@   ensures [bufferedIsStream C02] len(result) == r.w - r.r && forall k :: 0 <= k && k < len(result) ==> result[k] == S(r.rd, pos(r) + k)
+
+//@ func (*reader).readSlice
+//@   option overflow=on
+//@   requires RI(r) && r.rd != nil
+//@   modifies reader.r, reader.w, reader.err at r; elems(r.buf[:]); ghost:fetched at r.rd; ghost:dataReads at r.rd
+//@   ensures RI(r) && r.rd == old(r.rd)
+//@   ensures [sliceIsStream C09] len(result0) == pos(r) - old(pos(r)) && forall k :: 0 <= k && k < len(result0) ==> result0[k] == S(r.rd, old(pos(r)) + k)
+//@   ensures [sliceTerminated C09] result1 == nil ==> len(result0) >= 1 && result0[len(result0)-1] == 10 && forall k :: 0 <= k && k < len(result0)-1 ==> result0[k] != 10
+//@   ensures [sliceFull C09] result1 == errBufferFull ==> len(result0) == len(r.buf) && forall k :: 0 <= k && k < len(result0) ==> result0[k] != 10
+//@   ensures [sliceCut C10] result1 != nil && result1 != errBufferFull ==> pos(r) == fetched(r.rd) && r.err == nil && forall k :: 0 <= k && k < len(result0) ==> result0[k] != 10
+//@   ensures !fresh(result0)
+//@   loop 0: invariant RI(r) && r.rd == old(r.rd) && pos(r) == old(pos(r)) && 0 <= s && s <= r.w - r.r
+//@   loop 0: invariant [noNewlineBefore C11] forall k :: r.r <= k && k < r.r + s ==> r.buf[k] != 10
+//@   loop 0: decreases (r.err == nil ? 1 : 0)
+//@   loop 0: decreases len(r.buf) - (r.w - r.r)
+
+//@ func (*reader).readLine
+//@   option overflow=on
+//@   requires RI(r) && r.rd != nil
+//@   modifies reader.r, reader.w, reader.err at r; elems(r.buf[:]); ghost:fetched at r.rd; ghost:dataReads at r.rd
+//@   ensures RI(r) && r.rd == old(r.rd)
+//@   ensures [lineIsStream C02 C09] len(result0) == pos(r) - old(pos(r)) && forall k :: 0 <= k && k < len(result0) ==> result0[k] == S(r.rd, old(pos(r)) + k)
+//@   ensures [lineTerminated C09] result1 == nil ==> len(result0) >= 1 && result0[len(result0)-1] == 10 && forall k :: 0 <= k && k < len(result0)-1 ==> result0[k] != 10
+//@   ensures [lineCut C10] result1 != nil ==> pos(r) == fetched(r.rd) && forall k :: 0 <= k && k < len(result0) ==> result0[k] != 10
+//@   ensures [lineProgress C03] len(result0) > 0 || result1 != nil
+//@   ensures result1 != errBufferFull
+//@   loop 0: invariant RI(r) && r.rd == old(r.rd) && r.rd != nil
+//@   loop 0: invariant d == nil ==> pos(r) == old(pos(r))
+//@   loop 0: invariant d != nil ==> fresh(d) && len(d) == pos(r) - old(pos(r)) && len(d) > 0 && forall k :: 0 <= k && k < len(d) ==> d[k] == S(r.rd, old(pos(r)) + k) && d[k] != 10
+//@   loop 0: decreases N(r.rd) - pos(r)
